@@ -3,7 +3,7 @@ import itertools, json, os, re, subprocess
 import core, findings
 from gen import Gen
 
-LEAN_MODULES = ['GoSnaps.Props.C06', 'GoSnaps.Props.C06Refine', 'GoSnaps.Props.Tie.SnapshotIO']
+LEAN_MODULES = ['GoSnaps.Props.C06', 'GoSnaps.Props.C06Refine', 'GoSnaps.Props.Tie.SnapshotIO', 'GoSnaps.Props.Tie.Registry']
 EVIDENCE = dict(rule='every interleaving (stateless DFS with re-execution, at the granularity read / append / lock+read / truncate / write) of the yieldified real code for 2 threads x 1 call over all ordered pairs of {create, match, mismatch, update, create-forbidden} (quick) and 2 threads x 2 calls, 3 threads x 1-2 calls (thorough); each executed schedule is replayed on the Lean model (same lock discipline, read from the source) and checked against the serial semantics; non-trivial = distinct (world, schedule, result)')
 
 KINDS = ['create', 'match', 'mismatch', 'update', 'forbidden']
